@@ -63,6 +63,11 @@ var (
 		// a query without terms matches everything, also as one alternative among several queries
 		{state.WithLabelQuery()},
 		{state.WithLabelQuery(resource.LabelEqual("k1", "y")), state.WithLabelQuery()},
+		// inverted terms of every operator
+		{state.WithLabelQuery(resource.LabelExists("k1", resource.NotMatches))},
+		{state.WithLabelQuery(resource.LabelExists("k2", resource.NotMatches), resource.LabelEqual("k1", "x"))},
+		{state.WithLabelQuery(resource.LabelIn("k1", []string{"x", "2k"}, resource.NotMatches))},
+		{state.WithLabelQuery(resource.LabelLTNumeric("k2", "1500", resource.NotMatches))},
 	}
 	wsels = [][]state.WatchKindOption{
 		nil,
@@ -74,6 +79,10 @@ var (
 		{state.WatchWithLabelQuery(resource.LabelLTENumeric("k2", "1500", resource.NotMatches))},
 		{state.WatchWithLabelQuery()},
 		{state.WatchWithLabelQuery(resource.LabelEqual("k1", "y")), state.WatchWithLabelQuery()},
+		{state.WatchWithLabelQuery(resource.LabelExists("k1", resource.NotMatches))},
+		{state.WatchWithLabelQuery(resource.LabelExists("k2", resource.NotMatches), resource.LabelEqual("k1", "x"))},
+		{state.WatchWithLabelQuery(resource.LabelIn("k1", []string{"x", "2k"}, resource.NotMatches))},
+		{state.WatchWithLabelQuery(resource.LabelLTNumeric("k2", "1500", resource.NotMatches))},
 	}
 )
 
